@@ -177,3 +177,117 @@ Example C17_example_builder :
   CanRetryS 0 (GSys 6 (GNet false)) = false /\ CanRetryS 3 busy_net = true /\
   getErrCodeS (GPlain (GNet true)) = 5.
 Proof. vm_compute. repeat split. Qed.
+
+(* ---------------------------------------------------------------------------------------
+   The request state is private to its run (Model/RetryRuns.v: any number of RunWithRetry runs,
+   nested or concurrent, sharing requestStatePool; tables regenerated from retry.go:
+   Gen/GenReqStatePool.v).                                                                    *)
+From Verif Require Import Gen.GenReqStatePool Model.RetryRuns Proofs.RetryRunsP Proofs.RetryPoolTieP.
+
+(* The life cycle of the pooled RequestState in the source IS the model's: every mention of
+   requestStatePool (its declaration with New returning a fresh struct, ONE Get in getRequestState,
+   ONE Put in RunWithRetry and that one under `defer`), every occurrence of a variable holding an
+   element (bound from the getter, Put deferred, incremented / passed to f / read inside the loop;
+   in the getter: bound from Get, reset as a whole, returned); every field of struct RequestState
+   -- whatever fields it has -- is written between Get and the getter's return; and the discipline
+   these tables describe is [private_cfg]: Put only at the exit of the run, Attempt and
+   SelectedPeers reset to zero. *)
+Theorem C17_pool_sites :
+  rsp_sites = rsp_sites_model /\ rsp_uses = rsp_uses_model /\
+  map fst rsp_reset = rsp_fields /\ reset_complete rsp_fields rsp_reset = true /\
+  cfg_of_tables rsp_sites rsp_uses rsp_reset = private_cfg.
+Proof. exact tables_tie. Qed.
+Print Assumptions C17_pool_sites.
+
+(* Pool discipline: in every reachable state of every interleaving, the RequestState of a run
+   that has not returned is not in the pool (no Get can hand it out), exists, and is not the
+   RequestState of any other run that has not returned. *)
+Theorem C17_pool_discipline : forall ls s, exec private_cfg st0 ls = Some s ->
+  forall r rn, lookup r (s_runs s) = Some rn -> rc_done (rn_ctl rn) = false ->
+    ~ In (rn_obj rn) (s_pool s) /\
+    lookup (rn_obj rn) (s_heap s) <> None /\
+    (forall r' rn', lookup r' (s_runs s) = Some rn' -> rc_done (rn_ctl rn') = false -> r' <> r ->
+       rn_obj rn' <> rn_obj rn).
+Proof. exact pool_discipline. Qed.
+Print Assumptions C17_pool_discipline.
+
+(* Privacy: whatever the other runs do and however they are interleaved with it (nested in one
+   of its attempts, concurrent, any number, any options), a run goes through exactly the states
+   of the specification in which it owns its RequestState, fed with its own labels only: same
+   locals, same observations of its attempts (attempt number and peers, at the call and at the
+   return of the retried function), same result; and until it returns its pooled element holds
+   exactly that private state. *)
+Theorem C17_runs_private : forall ls s, exec private_cfg st0 ls = Some s ->
+  forall r, exists i, iso_exec None (proj r ls) = Some i /\
+    match lookup r (s_runs s) with
+    | None => i = None
+    | Some rn => exists ir, i = Some ir /\ ir_ctl ir = rn_ctl rn /\
+                   (rc_done (rn_ctl rn) = false -> lookup (rn_obj rn) (s_heap s) = Some (ir_obj ir))
+    end.
+Proof. exact runs_private. Qed.
+Print Assumptions C17_runs_private.
+
+(* A run on its own is run_with_retry (the loop of C17_budget / C17_stop / C17_seen). *)
+Theorem C17_run_alone : forall r k o outs, 0 < max_attempts (get_retry_options o) ->
+  exists ir, iso_exec None (run_labels r k o outs) = Some (Some ir) /\
+    rc_done (ir_ctl ir) = true /\
+    rc_last (ir_ctl ir) = fst (run_with_retry o (scripted outs)) /\
+    rc_log (ir_ctl ir) = both_looks (scripted outs) (snd (run_with_retry o (scripted outs))).
+Proof. exact run_labels_iso. Qed.
+Print Assumptions C17_run_alone.
+
+(* Composition: in any interleaving with other runs, a run that makes the scripted attempts
+   returns what run_with_retry returns, and each of its attempts sees -- at its call and at its
+   return -- the attempt number and the peers run_with_retry's attempt sees (and its own marks):
+   never a number or a peer of another run. *)
+Theorem C17_runs_compose : forall ls s r k o outs, exec private_cfg st0 ls = Some s ->
+  0 < max_attempts (get_retry_options o) ->
+  proj r ls = run_labels r k o outs ->
+  exists rn, lookup r (s_runs s) = Some rn /\
+    rc_done (rn_ctl rn) = true /\
+    rc_last (rn_ctl rn) = fst (run_with_retry o (scripted outs)) /\
+    rc_log (rn_ctl rn) = both_looks (scripted outs) (snd (run_with_retry o (scripted outs))).
+Proof. exact runs_compose. Qed.
+Print Assumptions C17_runs_compose.
+
+(* The discipline is needed.  With the Put not deferred, a run nested in the first attempt of
+   another takes the same element: the outer run's attempts see 1 3 4 4 instead of 1 1 2 2 (and
+   with the deferred Put that Get is impossible).  With a getter that does not reset Attempt /
+   SelectedPeers, the first attempt of the NEXT run sees the previous run's number / peers. *)
+Theorem C17_put_must_be_deferred :
+  exists s rn, exec (mkCfg false true true) st0 nested_schedule = Some s /\
+    lookup 1 (s_runs s) = Some rn /\
+    map ao_attempt (rc_log (rn_ctl rn)) = [1; 3; 4; 4] /\
+    (exists ir, iso_exec None (proj 1 nested_schedule) = Some (Some ir) /\
+                map ao_attempt (rc_log (ir_ctl ir)) = [1; 1; 2; 2]) /\
+    exec private_cfg st0 nested_schedule = None.
+Proof. exact not_deferred_refuted. Qed.
+Print Assumptions C17_put_must_be_deferred.
+
+Theorem C17_reset_needed :
+  (exists s rn, exec (mkCfg true false true) st0 sequential_schedule = Some s /\
+     lookup 2 (s_runs s) = Some rn /\ map ao_attempt (rc_log (rn_ctl rn)) = [2; 2]) /\
+  (exists s rn, exec (mkCfg true true false) st0 sequential_schedule = Some s /\
+     lookup 2 (s_runs s) = Some rn /\ map ao_seen (rc_log (rn_ctl rn)) = [[[49]; [49]]; [[49]; [49]]]) /\
+  (exists s rn, exec private_cfg st0 sequential_schedule = Some s /\
+     lookup 2 (s_runs s) = Some rn /\ map ao_attempt (rc_log (rn_ctl rn)) = [1; 1] /\
+     map ao_seen (rc_log (rn_ctl rn)) = [[]; []]).
+Proof. exact no_reset_refuted. Qed.
+Print Assumptions C17_reset_needed.
+
+(* Non-vacuity: run 2 (3 attempts, peer "2") nested in the first attempt of run 1 (2 attempts,
+   peer "1"), each with its own element (8 is new while 7 is held): both complete, run 1 sees
+   attempts 1 1 2 2 and at its second attempt exactly its own peer; afterwards both elements are
+   back in the pool. *)
+Example C17_example_nested :
+  let busy := {| e_nil := false; e_sys := true; e_code := 3; e_net := false |} in
+  let ls := [ LStart 1 None 7; LEnter 1 7; LMark 1 [49];
+                LStart 2 None 8; LEnter 2 8; LMark 2 [50]; LExit 2 busy; LEnter 2 8; LExit 2 busy;
+                LEnter 2 8; LExit 2 nil_err;
+              LExit 1 busy; LEnter 1 7; LExit 1 nil_err ] in
+  option_map (fun s => (s_pool s,
+                        option_map (fun rn => (map ao_attempt (rc_log (rn_ctl rn)), map ao_seen (rc_log (rn_ctl rn)))) (lookup 1 (s_runs s)),
+                        option_map (fun rn => map ao_attempt (rc_log (rn_ctl rn))) (lookup 2 (s_runs s))))
+             (exec private_cfg st0 ls)
+  = Some ([7; 8], Some ([1; 1; 2; 2], [[]; [[49]; [49]]; [[49]; [49]]; [[49]; [49]]]), Some [1; 1; 2; 2; 3; 3]).
+Proof. vm_compute. reflexivity. Qed.
